@@ -90,6 +90,18 @@ CLAIMED = {
          'implementations. md5_finish is proved with md5_append inlined and its constant 8/16-iteration loops unwound (complete). Message length restricted to < 2^28 bytes per md5_append call (int nbytes << 3) and '
          '<= 10^6 buffered bytes for SHA-1 (the 32-bit bit count written by get_digest is exact below 2^29 bytes; above that sha1.h truncates - observation). Overflow checks are off in the compression functions (modular arithmetic by definition).',
     design='4 (C16)', technique='cbmc: cut-point (assert-then-assume) equivalence per step, loop contracts with ghost lock-step state machine; dfcc contracts with a ghost block recorder for the streaming layer'),
+ 'C03': dict(
+    text='Slice: the output path below the response stream. (1) Pending-output bookkeeping of connection::nonblocking_write / write / append_pending: with U = pending bytes ++ newly formatted bytes, the socket is offered all of U from its '
+         'first byte, and for EVERY prefix the socket accepts (nothing, part, all; with or without an error or would-block) exactly the rest of U stays pending - nothing lost, duplicated or reordered; append_pending copies the chunks back to back behind the old content. '
+         '(2) FastCGI STDOUT framing (fastcgi::format_output, prepare_eof): for every chunk list and every total length T the output is (T-1)/65535 full records (content 65535, padding 1) and one last record of 1..65535 bytes padded to a multiple of 8, '
+         'each header on the wire = version 1, STDOUT, this request id, the content length of THAT record, big endian; the content byte at every stream offset comes from the right input byte; padding is zero; the response headers go in front of the first output only; '
+         'a completed response ends with an empty STDOUT record and END_REQUEST(status 0, REQUEST_COMPLETE). (3) HTTP chunked transfer coding (make_chunked_wrapper): hex(size) CRLF data CRLF, last-chunk 0 CRLF CRLF exactly when completed, size announced = size of the data. '
+         '(4) SCGI: header block exactly once in front of the first output.',
+    note=TRUST + 'NOT covered: http::response and its streambuf chain (buffering, setbuf, flush), gzip, header/cookie assembly (response_headers.h), HTTP format_output mode selection (Content-Length vs chunked vs close), copy-to-cache, '
+         'the asynchronous continuation (async_write_handler), stream_socket. booster::aio::const_buffer is abstract in the bookkeeping jobs (adjacent pieces of one stream; operator+ and operator+(n) = aio::details::advance are ASSUMED to denote concatenation / prefix removal - '
+         'the attempted proof of advance is parked in specs/wip) and a chunk list with a ghost prefix-sum table in the byte-level jobs. The FastCGI framing job runs without dfcc (loop contracts only; pre/postcondition assumed/asserted by the harness) and with the kissat back end; '
+         'each call is proved for an arbitrary state, the induction over a sequence of writes is a pen-and-paper step. Header bytes are required to come from the header_/full_header_ members the code uses (a refactoring that sends identical bytes from other storage needs EXPECT_PTR updated).',
+    design='4 (C03)', technique='cbmc loop contracts + code contracts (dfcc) on extracted C; abstract stream-piece model of const_buffer, position-observing output with send-time reads, ghost prefix-sum tables, division-free ghost decomposition of lengths'),
  'C10': dict(
     text='Slice: the wire format, the key spreading and the per-call L1 handshake. Client tcp_cache::store builds exactly key ++ value ++ (trigger ++ NUL)* with the three length fields and size = their sum, deadline unchanged; '
          'server session::store accepts a message only if the three lengths add up to the payload size (in 64 bit - a genuine defect, the 32-bit sum wrapped, was repaired) and hands the cache exactly message[0,key_len), '
@@ -125,7 +137,6 @@ CLAIMED = {
 }
 
 NOT_APPLICABLE = {
- 'C03': 'not claimed: the one C-like function attempted (aio::details::advance) is a walking-pointer/result-list shape whose loop-contract proof does not close in cbmc 6.11 (specs/wip); header assembly, chunked/FastCGI framing, gzip and the streambuf chain are C++ object code outside the C front end. No obligation set is discharged on every run, so nothing is claimed.',
  'C08': 'not built: limit/LRU/eviction order is a history property over the templated mem_cache (see C07); the C-like slice (buddy allocator bit arithmetic) is designed but no contract unit exists yet.',
  'C07': 'mem_cache<Setup> is class-template/STL-iterator code (hash_map, std::list, std::multimap with stored iterators) that cbmc\'s C++ front end cannot parse and that no token-level extraction to C preserves; the property is a statement over operation histories, not over one call.',
  'C09': 'concurrency / linearizability over thread schedules: cbmc code contracts are sequential; no contract within reach expresses interleavings of the templated cache code and booster mutexes.',
